@@ -67,9 +67,12 @@ package tensor
 //@   ensures[C06] imp(err == nil, o != nil && rank(o) == rank(ts[0]) && dim(o, dim) == catoff(ts, dim, len(ts)) && forall(b, 0, rank(o), b == dim || dim(o, b) == dim(ts[0], b)))
 //@   ensures[C06] imp(err == nil, forall(a, 0, len(ts), forallJ(J, imp(inb(o, J) && catoff(ts, dim, a) <= J[dim] && J[dim] < catoff(ts, dim, a+1), el(o, J) == el(ts[a], upd(J, dim, J[dim] - catoff(ts, dim, a)))))))
 
+// dag(): the back-edge graph is acyclic (ranked by the ghost order `older`, see gradtrack). Unlike graphInv() it is not
+// re-established by the contracts of the operations: it is an assumption about every graph handed to BackPropagate
+// (contexts are created pointing at existing tensors only and back edges are never rewritten).
 //@ func BackPropagate
 //@   public
-//@   requires imp(t != nil, tinv(t)) && graphInv()
+//@   requires imp(t != nil, tinv(t)) && graphInv() && dag()
 //@   modifies GradContext.bpdirty, GradContext.gradient
 //@   ensures[C09] iff(err == nil || t != nil, t != nil)
 //@   ensures[C08] imp(t == nil || !old(t.gctx.tracked), forallG(g, g.bpdirty == old(g.bpdirty) && g.gradient == old(g.gradient)))
